@@ -170,6 +170,9 @@ type readCase struct {
 	cuts   []int
 	mode   enum.EOFMode
 	chunk  int
+	// reuse: every message of the sequence is read into the same Message
+	// value (as a caller looping over a connection would do)
+	reuse bool
 }
 
 // readAll reads len(msgs) messages through a fragmenting reader and returns
@@ -177,9 +180,15 @@ type readCase struct {
 func readAll(rd *enum.FragReader, c *readCase) (clause string, detail string) {
 	rd.Reset(c.stream, c.cuts, c.mode, c.chunk)
 	consumed := 0
+	var shared net.Message
 	for i, enc := range c.msgs {
-		var m net.Message
-		err := m.Read(rd)
+		var fresh net.Message
+		mp := &fresh
+		if c.reuse {
+			mp = &shared
+		}
+		err := mp.Read(rd)
+		m := *mp
 		consumed += len(enc)
 		if err != nil {
 			return "error", fmt.Sprintf("message %d: Read returned %v", i, err)
@@ -333,6 +342,10 @@ func checkRead(family string, rd *enum.FragReader, c *readCase) string {
 	}
 	detail, min := attribute(c, clause)
 	fp := fmt.Sprintf("read/%s/%s", clause, detail)
+	if c.reuse {
+		// only reached when the same case passes with fresh values
+		fp += "/same-Message-value-reused"
+	}
 	rank := fmt.Sprintf("%09d|%02d|%v|%d", len(min.stream), len(min.cuts), min.cuts, min.mode)
 	if run.Fail(fp, rank) {
 		_, det := readAll(enum.NewFragReader(nil, nil, 0, 0), min)
@@ -549,6 +562,23 @@ func familySeq(maxLen, k int) {
 				iter++
 				return iter&0xfff != 0 || !run.Expired()
 			})
+		}
+		// the same sequences read into ONE Message value, unfragmented, in
+		// each end-of-stream mode (a fresh value per message is used above)
+		if len(s) >= 2 {
+			c.reuse, c.cuts = true, nil
+			for _, mode := range enum.EOFModes {
+				c.mode = mode
+				fresh := c.clone()
+				fresh.reuse = false
+				if cl, _ := readAll(rd, fresh); cl != "" {
+					continue // fails anyway: reported by the loop above
+				}
+				out := checkRead("seq", rd, c)
+				n++
+				local[fmt.Sprintf("seq-reused|len%d|%s|%s", len(s), mode, out)]++
+			}
+			c.reuse = false
 		}
 		counts[si] = n
 		run.Eval(fam, int(n))
